@@ -81,11 +81,17 @@ func isNotSymbolCharacter(c byte) bool {
 func expect(r *bufio.Reader, c byte) bool {
 	ReadWhitespace(r)
 	res, err := r.ReadByte()
-	if res != c {
-		_ = r.UnreadByte()
+	if err != nil {
+		// nothing was read, so there is nothing to put back
+		return false
 	}
 
-	return res == c && err != io.EOF
+	if res != c {
+		_ = r.UnreadByte()
+		return false
+	}
+
+	return true
 }
 
 func untilFixed(b byte) func(byte) bool {
